@@ -175,6 +175,10 @@ fn run_fixture(label: &str, emb: VfsPath, phys: VfsPath, depth: usize, out: &mut
             ] {
                 if let Some(err) = r {
                     if err.kind != Kind::NotFound {
+                        out.vio.push(mk(
+                            format!("{}|absent|kind={}", n, err.kind.name()),
+                            format!("{} of {:?}, which is missing from an existing directory, failed with {} ({}) instead of not-found", n, p, err.kind.name(), err.display),
+                        ));
                         diff.push(format!(
                             "{} of a missing entry failed with {} instead of not-found",
                             n,
@@ -341,6 +345,17 @@ fn run_fixture(label: &str, emb: VfsPath, phys: VfsPath, depth: usize, out: &mut
     // ---- mutators: refused, nothing changes
     let t = std::time::SystemTime::UNIX_EPOCH + std::time::Duration::from_secs(1_000_000_000);
     let before = snapshot(&emb, &probes);
+    // an immutable filesystem answers the same question the same way every time: the second look
+    // (after all the observers, scripts and walks above) against the very first one
+    if !se.same_tree(&before) {
+        let first = se.dump();
+        let second = before.dump();
+        let differing: Vec<String> = second.iter().filter(|l| !first.contains(l)).take(4).cloned().collect();
+        out.vio.push(mk(
+            "a-second-look-differs-from-the-first".into(),
+            format!("the observers were run on every path twice; the second pass differs, e.g. {:?}", differing),
+        ));
+    }
     let mem = VfsPath::new(MemoryFS::new());
     let _ = PathApi::write_file(&mem.join("src").unwrap(), b"from outside");
     let _ = mem.join("srcdir/sub").unwrap().create_dir_all();
@@ -604,6 +619,33 @@ pub fn run_c18(ctx: &Ctx) -> i32 {
         "classes": out.classes,
     });
     finish(ctx, &info, cov, &["two fixture folders (harness fixture with nested, dotted, multi-byte, prefix-sharing names, empty and binary files; the repository's test/test_directory)", "release build: rust-embed embeds the folder at compile time"], &vio)
+}
+
+/// Every operation on every path of both fixtures; only the error classification (kinds the
+/// property fixes, paths carried by the errors) is returned (C12).
+pub fn classification_sweep() -> (u64, Vec<Violation>) {
+    let mut out = Out {
+        evals: 0,
+        vio: vec![],
+        classes: BTreeMap::new(),
+    };
+    run_fixture(
+        "harness fixture",
+        VfsPath::new(EmbeddedFS::<Fixture>::new()),
+        VfsPath::new(PhysicalFS::new("/verif/mc/fixtures/embed")),
+        1,
+        &mut out,
+    );
+    let v = out
+        .vio
+        .into_iter()
+        .filter(|x| x.signature.contains("|kind=") || x.signature.ends_with("-path"))
+        .map(|mut x| {
+            x.property = "C12".into();
+            x
+        })
+        .collect();
+    (out.evals, v)
 }
 
 /// Every operation on every path of both fixtures; only panics are returned (C13).
